@@ -63,6 +63,9 @@ pub fn execute<H: Helper>(
             s.edit_kill(&mvt, kill_ring)?;
             if let Some(text) = text {
                 s.edit_insert_text(&text)?;
+                // a change that brings its text is complete (no insert
+                // session follows): close the undo group opened for it
+                s.changes.end();
             }
         }
         Cmd::Overwrite(c) => {
